@@ -171,6 +171,32 @@ def site_row_iloc(a, b, e):
     return [a[0], b[0]], f.iloc[0].values, True, [a.dtype, b.dtype], []
 
 
+def _obj_col(n, first):
+    o = np.empty(n, dtype=object)
+    o[:] = ['text'] * n
+    o[0] = first
+    o.flags.writeable = False
+    return o
+
+
+def site_row_iloc_object_number(a, b, e):
+    '''one row read across a typed column and a 1-D object column that holds a Python number in that row (it is object because other rows
+    hold text): the row must come back with both elements as they are (a big int next to a float column must not become a float)'''
+    big = 2 ** 60 + 1
+    f = sf.Frame.from_items((('x', a), ('o', _obj_col(len(a), big))), index=_labels(len(a)))
+    return [a[0], big], f.iloc[0].values, True, [a.dtype, np.dtype(object)], []
+
+
+def site_row_loc_object_float(a, b, e):
+    f = sf.Frame.from_items((('o', _obj_col(len(a), 1.5)), ('x', a)), index=_labels(len(a)))
+    return [1.5, a[0]], f.loc[_labels(len(a))[0]].values, True, [np.dtype(object), a.dtype], []
+
+
+def site_row_loc_cols_object_number(a, b, e):
+    f = sf.Frame.from_items((('x', a), ('o', _obj_col(len(a), 7)), ('y', a)), index=_labels(len(a)))
+    return [a[0], 7, a[0]], f.loc[_labels(len(a))[0], ['x', 'o', 'y']].values, True, [a.dtype, np.dtype(object)], []
+
+
 def site_iter_array_rows(a, b, e):
     n = min(len(a), len(b))
     f = sf.Frame.from_items((('x', a[:n]), ('y', b[:n])))
@@ -395,7 +421,7 @@ def main(ctx):
         ctx.exhaustive = True
     # ---- V: merge sites
     events = []
-    ELEM_SITES = ('frame_fillna', 'frame_fillna_2d', 'reindex_fill', 'frame_reindex_both_fill', 'frame_reindex_disjoint_rows_fill', 'shift_fill', 'assign_elem', 'frame_assign_elem', 'frame_concat_cols_fill', 'from_records',
+    ELEM_SITES = ('row_iloc_object_number', 'row_loc_object_float', 'row_loc_cols_object_number', 'frame_fillna', 'frame_fillna_2d', 'reindex_fill', 'frame_reindex_both_fill', 'frame_reindex_disjoint_rows_fill', 'shift_fill', 'assign_elem', 'frame_assign_elem', 'frame_concat_cols_fill', 'from_records',
                   'series_from_list', 'series_from_list_rev', 'index_go_append', 'fillna')
 
     def emit(name, da, db, e):
